@@ -88,3 +88,51 @@ Proof.
   rewrite Hf in H. destruct (api_delete_job (ps_w s)) as [w' out]. injection H as <- <-.
   split; [reflexivity|]. exists out. simpl. now left.
 Qed.
+
+(** * timers: a deadline that only time can trigger arms a deferred re-sync *)
+Lemma delete_tasks_ordered_armed tasks : forall s force now s' ok,
+  delete_tasks_ordered s tasks force now = (s', ok) -> ps_armed s' = ps_armed s.
+Proof.
+  induction tasks as [|p r IH]; intros s force now s' ok; simpl.
+  - now intros [= <- _].
+  - destruct (negb force && _); [apply IH|].
+    destruct (take_fault FDeletePod _).
+    + destruct (delete_tasks_ordered (add_action s _) r force now) as [s1 ok1] eqn:E. intros [= <- _]. now apply IH in E.
+    + destruct (api_delete_pod (ps_w s) (p_name p) force) as [[w' out] evs]. intros H. now apply IH in H.
+Qed.
+
+Theorem pending_armed cfg s j tasks now s' j' ok :
+  handle_pending cfg s j tasks now = (s', j', ok) -> 0 < pending_timeout cfg j ->
+  forall p, In p tasks -> pod_finish_ts p = None -> p_cont_start p = None ->
+    now < p_created p + pending_timeout cfg j -> ps_armed s' = true.
+Proof.
+  unfold handle_pending. intros H Hpt p Hp Hf Hc Hnd.
+  replace (pending_timeout cfg j <=? 0) with false in H by (symmetry; apply Z.leb_gt; exact Hpt).
+  set (cand := filter (fun p => match pod_finish_ts p, p_cont_start p with None, None => true | _, _ => false end) tasks) in *.
+  set (nd := filter (fun p => now <? p_created p + pending_timeout cfg j) cand) in *.
+  assert (Hn : In p nd).
+  { unfold nd. apply filter_In. split; [unfold cand; apply filter_In; split; auto; now rewrite Hf, Hc|now apply Z.ltb_lt]. }
+  destruct nd as [|x r] eqn:En; [destruct Hn|].
+  match type of H with context [match ?need with [] => _ | _ :: _ => _ end] => destruct need as [|y t] end.
+  - now injection H as <- _ _.
+  - destruct (delete_tasks (arm s) (y :: t) false now) as [s1 ok1] eqn:E. injection H as <- _ _.
+    unfold delete_tasks in E. now apply delete_tasks_ordered_armed in E.
+Qed.
+
+Theorem force_armed cfg s j tasks now s' j' ok :
+  handle_force cfg s j tasks now = (s', j', ok) -> 0 < force_timeout cfg -> j_forbid_force j = false ->
+  forall p t, In p tasks -> p_deletion p = Some t -> now < t + force_timeout cfg -> ps_armed s' = true.
+Proof.
+  unfold handle_force. intros H Hfd Hfb p t Hp Hd Hnd.
+  replace (force_timeout cfg <=? 0) with false in H by (symmetry; apply Z.leb_gt; exact Hfd).
+  rewrite Hfb in H.
+  set (dl := filter (fun p => match p_deletion p with Some _ => true | None => false end) tasks) in *.
+  set (wt := filter (fun p => match p_deletion p with Some t => now <? t + force_timeout cfg | None => false end) dl) in *.
+  assert (Hn : In p wt).
+  { unfold wt. apply filter_In. split; [unfold dl; apply filter_In; split; auto; now rewrite Hd|rewrite Hd; now apply Z.ltb_lt]. }
+  destruct wt as [|x r] eqn:En; [destruct Hn|].
+  match type of H with context [match ?need with [] => _ | _ :: _ => _ end] => destruct need as [|y u] end.
+  - now injection H as <- _ _.
+  - destruct (delete_tasks (arm s) (y :: u) true now) as [s1 ok1] eqn:E. injection H as <- _ _.
+    unfold delete_tasks in E. now apply delete_tasks_ordered_armed in E.
+Qed.
